@@ -7,6 +7,7 @@ import random
 import c18_lib as L
 import c18_ref as REF
 import c18_wrap as W
+import c18_scope as SC
 from framework import pmap
 
 ID = 'C18'
@@ -33,7 +34,11 @@ RULE = ('generated small programs (calls, lists, tuples, operators, attributes, 
         'every forwarded parameter (ctx, nested, count, loop, on, back, scope, self_, recurse, asts, callback, callback_after, '
         'copy_options/repl_options incl. explicit {}, **options) x entry points (sub method, fst.match.sub, FST.sub unbound, '
         'fst.match.subn, python -m fst.cli.sub with argv): each must equal subn() with the same arguments; '
-        'plus the documentation examples as directed cases. (a) correspondence: tree, per-node match results of the REAL matcher and the '
+        'scope: subn(scope=True, back in {False,True}) on functions with nested defs (every parameter shape, annotations and '
+        'defaults present or absent independently), classes, lambdas and comprehensions against Python scoping computed on the '
+        'CPython tree; identifier lists: slots at every index among fixed entries in MatchClass keyword attributes (pattern '
+        'templates), call/class keyword names, global/nonlocal names, import aliases, lambda/def arguments, attribute chains, '
+        'filled by name by the reference; plus the documentation examples as directed cases. (a) correspondence: tree, per-node match results of the REAL matcher and the '
         'template are translated into the Lean model; when the model asks about a tree that did not exist in the input (leave, '
         'loop) the real matcher is asked and the case re-run; result tree (ctx kept) and both counts compared with the real subn. '
         '(b) sweep: the real subn against a pure-AST reference transformer written in the harness (copy.deepcopy, captures taken '
@@ -201,7 +206,8 @@ def _subn(job):
     root = FST(job['src'], 'exec')
     pat = L.make_pattern(job['pat'])
     s = job['set']
-    r = root.subn(pat, job['tmpl'], s['nested'], count=s['count'], loop=s['loop'], on=s['on'], ctx=s.get('ctx', False))
+    tmpl = FST(job['tmpl'], job['tmpl_mode']) if job.get('tmpl_mode') else job['tmpl']
+    r = root.subn(pat, tmpl, s['nested'], count=s['count'], loop=s['loop'], on=s['on'], ctx=s.get('ctx', False))
     return root, r[1], r[2]
 
 
@@ -565,7 +571,7 @@ def sweep_jobs(ctx, n, layouts):
     import corpus
     rng = random.Random(ctx.rng.random())
     jobs = L.gen_jobs(rng, n) + L.gen_chain_jobs(rng, n // 3, allow_nested=False) + L.gen_arglike_jobs(rng, n // 4) \
-        + L.gen_ctx_jobs(rng, n // 6) + L.gen_override_jobs(rng, n // 6)
+        + L.gen_ctx_jobs(rng, n // 6) + L.gen_override_jobs(rng, n // 6) + L.gen_identlist_jobs(rng, n // 5)
     # the reference covers loop and nested separately
     for j in jobs:
         if j['set']['loop'] is not False and j['set']['nested'] and j['set']['on'] == 'enter':
@@ -608,7 +614,7 @@ def _report(ctx, results):
         ctx.tally('sweep_placement', job['placement'])
         if 'fail' in r:
             cls, what = r['fail'][0], r['fail'][1]
-            w = {'src': job['src'], 'pat': job['pat'], 'tmpl': job['tmpl'], 'set': job['set'], 'cat': job['cat'],
+            w = {'src': job['src'], 'pat': job['pat'], 'tmpl': job['tmpl'], 'set': job['set'], 'cat': job['cat'], 'tmpl_mode': job.get('tmpl_mode'),
                  'shape': job['shape'], 'placement': job['placement'], 'result_src': r.get('out')}
             if len(r['fail']) > 2:
                 w.update(r['fail'][2])
@@ -638,8 +644,24 @@ def wrappers(ctx):
     ctx.exhaustive = None
 
 
+def scopes(ctx):
+    """subn(scope=True, back in {False, True}) against Python's scoping computed on the CPython tree"""
+    rng = random.Random(ctx.rng.random())
+    cs = SC.cases(rng, 120 if ctx.quick else 1500)
+    results = pmap(SC.run_case, cs, chunksize=max(1, len(cs) // 16))
+    for r in results:
+        c = r['case']
+        ctx.count(('scope', c['src'], c['back']), r.get('nsub', 0) > 0)
+        ctx.tally('scope_back', c['back'])
+        if 'fail' in r:
+            ctx.fail(f'C18|scope|{"back" if c["back"] else "forward"}|scope=True|{r["fail"][0]}', r['fail'][1],
+                     {'scope_case': c, 'src': c['src'], 'back': c['back'], 'result_src': r.get('out')})
+    ctx.notes['scope_cases'] = len(results)
+
+
 def sweep(ctx):
     wrappers(ctx)
+    scopes(ctx)
     jobs = sweep_jobs(ctx, 700 if ctx.quick else 7500, True)
     results = pmap(_sweep_case, jobs, chunksize=max(1, len(jobs) // 32))
     n = _report(ctx, results)
@@ -668,12 +690,17 @@ def replay(ctx, data):
     if not w:
         print('replay names a broken obligation:', data.get('broken'))
         return
+    if 'scope_case' in w:
+        r = SC.run_case(w['scope_case'])
+        if 'fail' in r:
+            ctx.fail(f'C18|scope|{"back" if w["back"] else "forward"}|scope=True|{r["fail"][0]}', r['fail'][1], w)
+        return
     if 'wrapper' in w:
         r = W.run_case(w['wrapper'])
         if 'fail' in r:
             ctx.fail(_wrap_sig(r, r['fail'][0]), r['fail'][1], w)
         return
-    job = {k: w[k] for k in ('src', 'pat', 'tmpl', 'set', 'cat', 'shape', 'placement')}
+    job = {k: w[k] for k in ('src', 'pat', 'tmpl', 'set', 'cat', 'shape', 'placement', 'tmpl_mode') if k in w}
     r = _sweep_case(job)
     if 'fail' in r:
         ctx.fail(_fail_sig(job, r['fail'][0]), r['fail'][1], w)
